@@ -492,6 +492,30 @@ Outcome run_c09(const Case &c) {
     else if (peer.rx.size() != out_pos) fail("stream-out", "the peer received " + std::to_string(peer.rx.size()) + " bytes, the library reported " + std::to_string(out_pos) + " bytes as sent");
     else for (size_t i = 0; i < out_pos; i++) if ((unsigned char)peer.rx[i] != pat(1, i)) { fail("stream-out", "bytes that arrived at the peer differ from the bytes reported as sent at offset " + std::to_string(i)); break; }
   }
+  // the other direction after the half-close: the peer sends a last block and closes while that block is still unread.  Everything the
+  // peer's send calls accepted must still come out of blocking receives ("without loss"), and only then the end of the stream
+  // (one case in four: the peer has to close in an orderly way here, which leaves its port in TIME_WAIT for a minute)
+  if (!peer_gone && out.verdict.empty() && !out.inconclusive && vl::fnv1a(to_text(c)) % 4 == 0) {
+    { struct linger lg = {0, 0}; setsockopt(rawfd, SOL_SOCKET, SO_LINGER, &lg, sizeof lg); }   // FIN, not RST: an abortive close may legitimately discard what is queued
+    { std::lock_guard<std::mutex> g(peer.mx); peer.to_send.push_back(20000); peer.close_req = true; } queued_in += 20000;
+    for (int i = 0; i < 3000; i++) { { std::lock_guard<std::mutex> g(peer.mx); if (peer.closed) break; } usleep(1000); }
+    bool closed_now; { std::lock_guard<std::mutex> g(peer.mx); closed_now = peer.closed; }
+    if (closed_now) {
+      usleep(20000);   // the peer's FIN is on the loopback queue behind its data
+      p_socket_set_blocking(ls, TRUE); p_socket_set_timeout(ls, 3000);
+      char *buf = (char *)malloc(8192); bool eos = false;
+      for (int i = 0; i < 100000 && !eos && out.verdict.empty(); i++) {
+        PError *err = NULL; pssize r = p_socket_receive(ls, buf, 8192, &err);
+        if (r < 0) fail("stream-loss-after-half-close", "after the library side had half-closed its write direction and the peer had sent " + std::to_string(queued_in - in_pos) + " more byte(s) and closed, a blocking receive failed (" + errstr(err) + ") with those bytes still unread: bytes the peer's send calls accepted are lost");
+        else if (r == 0) eos = true;
+        else { for (pssize k = 0; k < r; k++) if ((unsigned char)buf[k] != pat(2, in_pos + (size_t)k)) { fail("stream-in", "received bytes differ from the peer's stream at offset " + std::to_string(in_pos + (size_t)k) + " (loss, duplication or corruption)"); break; } in_pos += (size_t)r; }
+        if (err) p_error_free(err);
+      }
+      free(buf);
+      if (out.verdict.empty() && eos && in_pos != queued_in) fail("stream-loss-after-half-close", "end of stream after " + std::to_string(in_pos) + " bytes although the peer's send calls accepted " + std::to_string(queued_in));
+      vl::stats().klass("drained_after_half_close_and_peer_close");
+    }
+  }
   { std::lock_guard<std::mutex> g(peer.mx); peer.stop = true; }
   peer.th.join();
   if (!peer.closed) close(rawfd);
